@@ -33,7 +33,7 @@ def run_one(name, meta, tier):
         if p.returncode != 0:
             return dict(name=name, ok=False, why=f"patch does not apply: {p.stdout}{p.stderr}"[:400])
         out = {}
-        env = dict(os.environ, HVSRPY_VERIF_REPO=dst, PYTHONHASHSEED="0")
+        env = dict(os.environ, HVSRPY_VERIF_REPO=dst, PYTHONHASHSEED="0", HVSRPY_VERIF_WORK=os.path.join(scratch, "work"))
         res = []
         for pid in meta["caught_by"] if "caught_by" in meta else [meta["property"]]:
             t0 = time.time()
@@ -51,15 +51,19 @@ def main():
     ap = argparse.ArgumentParser()
     ap.add_argument("--only", default=None)
     ap.add_argument("--tier", default="quick")
+    ap.add_argument("--jobs", type=int, default=4)
     a = ap.parse_args()
     sd = os.path.join(VERIF, "seeded")
     names = sorted(n for n in os.listdir(sd) if os.path.exists(os.path.join(sd, n, "meta.json"))) if os.path.isdir(sd) else []
     if a.only:
         names = [n for n in names if a.only in n]
     bad = 0
-    for n in names:
-        meta = json.load(open(os.path.join(sd, n, "meta.json")))
-        r = run_one(n, meta, a.tier)
+    import concurrent.futures as cf
+    metas = {n: json.load(open(os.path.join(sd, n, "meta.json"))) for n in names}
+    with cf.ThreadPoolExecutor(a.jobs) as ex:
+        results = list(ex.map(lambda n: run_one(n, metas[n], a.tier), names))
+    for n, r in zip(names, results):
+        meta = metas[n]
         print(("CAUGHT  " if r["ok"] else "MISSED  ") + n + "  " + json.dumps(r.get("results", r.get("why"))))
         sys.stdout.flush()
         if not r["ok"] and not meta.get("expected_missed"):
